@@ -104,24 +104,26 @@ Example C05_unit_normal_inhabited :
   unit_normal (MkPlane (V3 1 2 3) (V3 (2/3) (-1/3) (2/3))).
 Proof. unfold unit_normal, vnorm2, vdot; cbn. field. Qed.
 
-Print Assumptions C05_sd_is_dot.
-Print Assumptions C05_sign_classifies.
-Print Assumptions C05_front_partition.
-Print Assumptions C05_on_or_front_partition.
-Print Assumptions C05_in_front_selects.
-Print Assumptions C05_on_or_in_front_selects.
-Print Assumptions C05_indices_sorted_in_range.
-Print Assumptions C05_points_are_rows_at_indices.
-Print Assumptions C05_project_on_plane.
-Print Assumptions C05_project_idempotent.
-Print Assumptions C05_project_moves_along_normal.
-Print Assumptions C05_mirror_negates.
-Print Assumptions C05_mirror_involution.
-Print Assumptions C05_mirror_midpoint_is_projection.
-Print Assumptions C05_flipped_negates.
-Print Assumptions C05_flipped_same_point_set.
-Print Assumptions C05_equation_describes_plane.
-Print Assumptions C05_canonical_point_on_plane.
-Print Assumptions C05_stacked_is_map_single.
-Print Assumptions C05_pairs_is_map_single.
-Print Assumptions C05_distance_is_abs.
+(* one pass over all of them *)
+Definition C05_all := (C05_sd_is_dot,
+  C05_sign_classifies,
+  C05_front_partition,
+  C05_on_or_front_partition,
+  C05_in_front_selects,
+  C05_on_or_in_front_selects,
+  C05_indices_sorted_in_range,
+  C05_points_are_rows_at_indices,
+  C05_project_on_plane,
+  C05_project_idempotent,
+  C05_project_moves_along_normal,
+  C05_mirror_negates,
+  C05_mirror_involution,
+  C05_mirror_midpoint_is_projection,
+  C05_flipped_negates,
+  C05_flipped_same_point_set,
+  C05_equation_describes_plane,
+  C05_canonical_point_on_plane,
+  C05_stacked_is_map_single,
+  C05_pairs_is_map_single,
+  C05_distance_is_abs).
+Print Assumptions C05_all.
